@@ -17,9 +17,20 @@ type Mutex struct {
 }
 
 func caller() string {
-	_, file, line, ok := runtime.Caller(2)
+	pc, file, line, ok := runtime.Caller(2)
 	if !ok {
 		return "?"
+	}
+	fn := ""
+	if f := runtime.FuncForPC(pc); f != nil {
+		fn = f.Name()
+		for i := len(fn) - 1; i >= 0; i-- {
+			if fn[i] == '/' {
+				fn = fn[i+1:]
+				break
+			}
+		}
+		fn = "(" + fn + ")"
 	}
 	// keep the last two path elements
 	n := 0
@@ -32,7 +43,7 @@ func caller() string {
 			}
 		}
 	}
-	return file + ":" + itoa(line)
+	return file + ":" + itoa(line) + fn
 }
 
 func itoa(n int) string {
